@@ -123,4 +123,38 @@ C13_MERGEMIN = dict(
     ignore=["logger.info(__a)"],
 )
 
-ALL = [C16_FILTER, C17_SAMPLE, C11_GENERATE_PLATES, C11_SMOOTH_PLATES, C13_MERGEMIN_SAMPLE_ID, C13_MERGEMIN]
+# create_plate_balanced_holdout_set_among_masked_plates (retrospective.py).  The float `fraction` is the exact rational
+# num/den (Model/RetroHoldout.v); it occurs in the source only inside the three primitives below.
+_COLS = ("treatment_names=__s.treatment_names[{i}], treatment_doses=__s.treatment_doses[{i}], observations=__s.observations[{i}], "
+         "sample_names=__s.sample_names[{i}], plate_names=__s.plate_names[{i}], control_treatment_name=__s.control_treatment_name, "
+         "observation_mask={m}, treatment_mapping=__s.treatment_mapping, sample_mapping=__s.sample_mapping")
+C11_BALANCED_HOLDOUT = dict(
+    file="src/batchie/retrospective.py", func="create_plate_balanced_holdout_set_among_masked_plates",
+    out="SrcRetro.v", imports="Model.Encode Model.Screen Model.Retro Model.RetroHoldout", name="src_balanced_holdout",
+    pyparams=["screen", "fraction", "rng"],
+    params=[("num", "Z"), ("den", "positive"), ("counts", "opt list Z"), ("screen", "screen_t"), ("ds", "list draw")],
+    returns="(screen_t * screen_t)", return_state=["ds"],
+    vars={"selection_vector": "bvec", "plate": "bvec", "plate_indices": "list nat", "n_sample": "Z",
+          "downsampled_indices": "list nat", "keep_screen": "screen_t", "holdout_screen": "screen_t"},
+    prims=[
+        ("fraction < 0", "num <? 0", "bool"),
+        ("fraction > 1", "Zpos den <? num", "bool"),
+        ("np.zeros(__s.size, dtype=bool)", "repeat false (length {s})", "bvec", {"s": "screen_t"}),
+        ("__s.plates", "plates_of {s}", "list bvec", {"s": "screen_t"}),
+        ("np.arange(__s.size)[__p.selection_vector]", "vec_indices {p}", "list nat", {"s": "screen_t", "p": "bvec"}),
+        ("__p.is_observed", "vec_observed {p} screen'", "bool", {"p": "bvec"}),       # the plates' parent is `screen`
+        ("__p.size", "plate_size {p}", "Z", {"p": "bvec"}),
+        ("Screen(" + _COLS.format(i="~__v", m="__s.observation_mask[~__v]") + ")", "!screen_without {s} {v}", "screen_t",
+         {"s": "screen_t", "v": "bvec"}),
+        ("Screen(" + _COLS.format(i="__v", m="np.ones(np.count_nonzero(__v), dtype=bool)") + ")", "!screen_observed_of {s} {v}",
+         "screen_t", {"s": "screen_t", "v": "bvec"}),
+    ],
+    state_calls=[
+        ("math.ceil(__n * fraction)", ["counts"], "ceil_count {n} num den counts", "Z", {"n": "Z"}),
+        ("rng.choice(__a, __n, replace=False)", ["ds"], "choose {a} {n} ds", "list nat", {"a": "list nat", "n": "Z"}),
+    ],
+    assign_effects=[("selection_vector[__i] = True", "selection_vector'", "set_true (length screen') {state} {i}")],
+    raises=[("fraction must be between 0 and 1", 5)],
+)
+
+ALL = [C16_FILTER, C17_SAMPLE, C11_GENERATE_PLATES, C11_SMOOTH_PLATES, C13_MERGEMIN_SAMPLE_ID, C13_MERGEMIN, C11_BALANCED_HOLDOUT]
